@@ -121,6 +121,16 @@ func (c *Ctx) errorDisciplineScopes() []errScope {
 	return out
 }
 
+func scopeShortName(fi *load.FuncInfo) string {
+	short := fi.Obj.Name()
+	if sig := fi.Obj.Type().(*types.Signature); sig.Recv() != nil {
+		if n, ok := derefNamedT(sig.Recv().Type()); ok {
+			short = n + "." + short
+		}
+	}
+	return short
+}
+
 func derefNamedT(t types.Type) (string, bool) {
 	if p, ok := t.(*types.Pointer); ok {
 		t = p.Elem()
@@ -267,6 +277,23 @@ func (c *Ctx) oneErrorSite(prefix string, sc errScope, fn *gf.Fn, an *gf.Analysi
 	}
 	parent := path[len(path)-2]
 	idioms := idiomFor(sc.name, callee)
+	// a helper expanded into its callers inherits the idioms tabled for them (the handling was moved, not changed)
+	if len(idioms) == 0 && sc.lit == nil && c.liftedAway(sc.fi) {
+		for _, g := range c.P.Funcs() {
+			if g.Pkg != sc.fi.Pkg {
+				continue
+			}
+			calls := false
+			for _, cc := range callsIn(g.Decl.Body, true) {
+				if f := gf.StaticCallee(g.Pkg.TypesInfo, cc); f != nil && f.Origin() == sc.fi.Obj {
+					calls = true
+				}
+			}
+			if calls {
+				idioms = append(idioms, idiomFor(scopeShortName(g), callee)...)
+			}
+		}
+	}
 	wholeIdiom := func() (string, bool) {
 		for _, it := range idioms {
 			if it.pred == "" {
